@@ -241,16 +241,33 @@ def run(ctx):  # noqa: C901, PLR0912, PLR0915
                and a.attr == 'soap_client_class' and isinstance(a.ctx, ast.Load) and f.module.name.startswith('sdc11073.provider')]
     ctx.ob('C19.R2', 'single provider client factory', set(callers) == {pm.qual},
            'provider SOAP clients are created only in _mk_soap_client', where=PV, witness=sorted(set(callers)))
-    cm = repo.func(f'{CO}._mk_soap_client')
+    # the consumer's client factory, by role: the method of SdcConsumer that instantiates soap_client_class (the private
+    # helper _mk_soap_client, or get_soap_client itself when the helper was folded into its only caller)
+    factories = [f for f in repo.cls(CO).methods.values() if any(
+        isinstance(a, ast.Attribute) and a.attr == 'soap_client_class' and isinstance(a.ctx, ast.Load) for a in ast.walk(f.node))]
+    if len(factories) != 1:
+        raise AnalysisError(f'C19.R2: expected one method of SdcConsumer that instantiates soap_client_class, found '
+                            f'{[f.name for f in factories]}')
+    cm = factories[0]
     ok, wit = _context_argument(cfg_of(cm), 'ssl_context', 'client_context', lambda a, b, u: not u)
     ctx.ob('C19.R2', 'consumer clients', ok, 'consumer SOAP clients get the client context whenever use_ssl is set', fi=cm,
            witness=wit)
     gs = expand_aliases(repo.func(f'{CO}.get_soap_client'))   # `pool = self._soap_clients` written out
     gg = cfg_of(gs)
     # symbolic expansion (locals written out in terms of self / parameters): names of temporaries do not matter
-    mkc = gg.nodes_calling('_mk_soap_client')
+    mkc = gg.nodes_calling(cm.name) if cm.name != 'get_soap_client' else []
     flag = 'self.is_ssl_connection is not False'
-    ok = len(mkc) == 1 and bool(mkc[0][1].args) and gg.symbolic_text(mkc[0][0], mkc[0][1].args[0]) == flag
+    if mkc:
+        ok = len(mkc) == 1 and bool(mkc[0][1].args) and gg.symbolic_text(mkc[0][0], mkc[0][1].args[0]) == flag
+    else:
+        # the factory is this function: the test that selects the client context is the flag itself
+        created = [(n, k.value) for n in gg.real_nodes() for c in n.calls() for k in c.keywords if k.arg == 'ssl_context']
+        ok = len(created) == 1
+        if ok:
+            cases = gg.value_cases(created[0][0], created[0][1])
+            with_ctx = [f for f, leaf in cases if not (isinstance(leaf, ast.Constant) and leaf.value is None)]
+            ok = bool(with_ctx) and all(any(gg.symbolic_text(created[0][0], ast.parse(t, mode='eval').body) == flag and p is True
+                                            for t, p in f.both() if not t.startswith('$')) for f in with_ctx)
     # the client pool is keyed by that flag too (a TLS client is never handed out for a plaintext decision and vice versa)
     # every access to the pool: pool[key] (read or write), pool.get(key), key in pool
     keys = []
@@ -372,7 +389,15 @@ def run(ctx):  # noqa: C901, PLR0912, PLR0915
             for _, c in wraps)
     https_url = [n for n in g.real_nodes() if any(isinstance(x, ast.Constant) and isinstance(x.value, str)
                                                    and x.value.startswith('https') for x in n.walk())]
-    ok = ok and bool(https_url) and all(any(g.dominates(w, u) for w, _ in wraps) for u in https_url)
+    # the https url is chosen behind the wrap: dominated by it, or chosen under the same (unchanged) test `self._ssl_context`
+    # that guards the wrap further up (`if ctx: wrap ... scheme = 'https' if ctx else 'http'`)
+    stores_ctx = [n for n in g.real_nodes() if n.kind == 'stmt' and isinstance(n.stmt, ast.Assign) and
+                  unparse(n.stmt.targets[0]) == 'self._ssl_context']
+    ok = ok and bool(https_url) and all(
+        any(g.dominates(w, u) for w, _ in wraps) or
+        (('self._ssl_context', True) in g.facts_at(u) and not stores_ctx and any(g.path_exists(w, u) for w, _ in wraps)
+         and not any(g.path_exists(u, w) for w, _ in wraps))
+        for u in https_url)
     ctx.ob('C19.R4', 'server wraps its socket', ok,
            'with a context the listening socket is wrapped (server side) before the https base url is published', fi=hr)
 
